@@ -29,7 +29,9 @@ var hookCalls = []string{"send", "reopen", "rmpipenodes", "rmnode-unused", "rmpi
 	// early-return / error paths of every call: none may leave the lock held
 	"getthr-unknown", "getthrs", "getthrs-unknown", "isany-unknown", "send-unknown", "rmpipe-unknown", "rmpipe-empty", "rmpipenodes-unknown",
 	"rmpipenodes-unknownpid", "rmpipenodes-empty", "rmnode-unknown", "rmnode-inuse", "rmnode-empty", "regnode-denied", "regnode-empty", "regnode-badpolicy",
-	"regpipe-invalid", "regpipe-denied", "regpipe-unknown-node", "regpipe-empty", "setthr-negative", "setthrs", "setthrs-negative", "setthr-empty", "reopen-failing",
+	"regpipe-invalid", "regpipe-denied", "regpipe-unknown-node", "regpipe-empty", "setthr-negative", "setthrs", "setthrs-negative", "setthr-empty", "reopen-failing", "reopen-failing-2types",
+	// a pipeline that lists one node id twice: removing / overwriting it walks the linked nodes
+	"rmpipenodes-dup", "rmpipe-dup", "regpipe-dup-overwrite",
 	// closing wrapped nodes (NodeUnwrapper), also one whose Unwrap returns nil
 	"rmnode-wrapper", "rmnode-wrapper-nil", "rmpipenodes-wrapper-nil"}
 var gatedCalls = []string{"send-expiring", "send-flush", "rmpipenodes", "rmpipe+rmnode", "reopen"}
@@ -264,6 +266,25 @@ func body(sc scenario) func() string {
 		case "reopen-failing":
 			m2.ReopenErr = fmt.Errorf("reopen fails")
 			ret = fmt.Sprint(b.Reopen(ctx) != nil)
+		case "reopen-failing-2types":
+			// nodes of two event types fail: Reopen must still return (with an error)
+			m2.ReopenErr = fmt.Errorf("reopen of m2 fails")
+			m.ReopenErr = fmt.Errorf("reopen of m fails")
+			s.ReopenErr = fmt.Errorf("reopen of s fails")
+			ret = fmt.Sprint(b.Reopen(ctx) != nil)
+		case "rmpipenodes-dup", "rmpipe-dup", "regpipe-dup-overwrite":
+			d := hn.NewNode(log, "d", el.NodeTypeFormatter, hn.Pass, nil)
+			must(b.RegisterNode("d", d.AsNode()), "d")
+			must(b.RegisterPipeline(el.Pipeline{PipelineID: "pd", EventType: "t3", NodeIDs: []el.NodeID{"d", "d", "m", "s"}}), "pd")
+			switch sc.Call {
+			case "rmpipenodes-dup":
+				ok, err := b.RemovePipelineAndNodes(ctx, "t3", "pd")
+				ret = fmt.Sprint(ok, err != nil)
+			case "rmpipe-dup":
+				ret = fmt.Sprint(b.RemovePipeline("t3", "pd") != nil)
+			default:
+				ret = fmt.Sprint(b.RegisterPipeline(el.Pipeline{PipelineID: "pd", EventType: "t3", NodeIDs: []el.NodeID{"d", "m", "d", "s"}}) != nil)
+			}
 		}
 		vrt.Join()
 		// the broker must still be usable: no call may leave it permanently locked
@@ -289,7 +310,7 @@ func main() {
 			ex := &vrt.Explorer{Bound: sc.Bound, Body: body(sc)}
 			return hk.ExploreJob(prop, job, deadline, ex, sc.Name)
 		},
-		Rule: "scenarios: every Broker call, including every early-return / error path (unknown and empty event types, ids and policies, denied overwrites, invalid pipelines, negative thresholds, a failing Reopen), x a harness node that re-enters Send on the same Broker from Process / Close / Reopen, and the real gated.Filter (Broker = the same broker) with 0..3 pending groups, x {no other thread, a concurrent RegisterNode waiting for the write lock, a concurrent Send, a concurrent RemovePipelineAndNodes}; every schedule within the preemption bound on the real code with the modelled writer-preferring RWMutex; verdict: deadlock (with each blocked thread's lock and stack), plus the Broker must accept a write-locking call afterwards",
+		Rule: "scenarios: every Broker call, including every early-return / error path (unknown and empty event types, ids and policies, denied overwrites, invalid pipelines, negative thresholds, a Reopen failing in one or in two event types, removing / overwriting a pipeline that lists a node id twice), x a harness node that re-enters Send on the same Broker from Process / Close / Reopen, and the real gated.Filter (Broker = the same broker) with 0..3 pending groups, x {no other thread, a concurrent RegisterNode waiting for the write lock, a concurrent Send, a concurrent RemovePipelineAndNodes}; every schedule within the preemption bound on the real code with the modelled writer-preferring RWMutex; verdict: deadlock (with each blocked thread's lock and stack), plus the Broker must accept a write-locking call afterwards",
 		Assumptions: []string{
 			"RWMutex model follows sync.RWMutex: a Lock that has announced itself blocks later RLocks, so reader recursion with a waiting writer deadlocks in the model as in Go",
 			"'bounded time' is judged as: every thread finishes in every explored schedule (no deadlock, step horizon 40000)",
